@@ -31,6 +31,18 @@ def excluded_keys():
     return set(k for k in os.environ.get("VERIF_EXCLUDE", "").split(",") if k)
 
 
+EXCLUDED_DRAWS = [0]
+
+
+def excluded(key):
+    """known finding listed in VERIF_EXCLUDE: the generator avoids exactly its configuration"""
+    return key in excluded_keys()
+
+
+def count_excluded():
+    EXCLUDED_DRAWS[0] += 1
+
+
 # ------------------------------------------------------------------ .gr codec
 # Written from the documented layout (FileGraph.h): uint64 version, sizeofEdge,
 # numNodes, numEdges; uint64 outIdx[numNodes] (end offsets); V1: uint32
@@ -147,7 +159,7 @@ class Stats:
     def dump(self, path):
         with open(path, "w") as f:
             json.dump({"evaluations": self.evaluations, "ok": self.evaluations, "inconclusive": self.inconclusive,
-                       "excluded_draws": self.excluded, "nontrivial_hashes": sorted(self.nontrivial),
+                       "excluded_draws": self.excluded + EXCLUDED_DRAWS[0], "nontrivial_hashes": sorted(self.nontrivial),
                        "inconclusive_kinds": {}, "hist": self.hist, "samples": self.nt_samples + self.samples}, f)
 
 
